@@ -56,6 +56,7 @@ class Case:
     unit: Unit
     hazards: List[str]
     filter_pick: int = 0
+    style: Any = None  # how the schema text is written (comments with text that is special in a target language, ...)
 
 
 ADV_NAMES = ["Ab", "Ab1", "Ab12", "ArrayAb", "Ab2", "ArrayAb1"]
@@ -115,11 +116,17 @@ def strategy_(draw: Any) -> Case:
             fl = m.fields()
             if fl and draw(st.booleans()):
                 fl[0].name = "type"
-    return Case(unit, hz, draw(st.integers(0, 1000)))
+    style = None
+    if flip("comments", 3):
+        from ..rewrites import draw_style
+
+        style = draw_style(draw)
+        style.comments = True
+    return Case(unit, hz, draw(st.integers(0, 1000)), style)
 
 
 def describe(c: Case) -> Any:
-    return {"files": render_bp.render_unit(c.unit), "hazard_families_on": c.hazards}
+    return {"files": render_bp.render_unit(c.unit, c.style), "hazard_families_on": c.hazards}
 
 
 # ---------------------------------------------------------------------------
@@ -482,7 +489,9 @@ def run_case(c: Case, stats: Stats) -> None:
     nt_feats = {"import", "nested_message", "nested_enum", "alias_use", "array_of_message", "empty_message", "dotted_ref"} & set(S.unit_labels(unit))
     nontrivial = len(nt_feats) + (1 if c.hazards else 0) >= 2
 
-    with gen.Compiled(unit) as cu:
+    if c.style is not None and c.style.spicy_comments:
+        stats.count("style:spicy_comments")
+    with gen.Compiled(unit, c.style) as cu:
         digest = cases.unit_digest(cu.texts)
 
         def known(fid: str, what: str) -> None:
